@@ -19,6 +19,8 @@ pub mod c11;
 pub mod c12;
 pub mod c13;
 pub mod scripted;
+#[cfg(feature = "security")]
+pub mod secsmoke;
 
 pub struct Spec {
   pub id: &'static str,
@@ -74,6 +76,8 @@ pub fn spec(id: &str) -> Option<Spec> {
     "C13" => Some(c13::spec()),
     "C20" => Some(c20::spec()),
     "X01" => Some(e2smoke::spec()),
+    #[cfg(feature = "security")]
+    "X02" => Some(secsmoke::spec()),
     _ => None,
   }
 }
@@ -94,6 +98,8 @@ pub fn run(id: &str, tier: &str, ctx: &mut Ctx) -> Check {
     "C13" => c13::run(tier, ctx),
     "C20" => c20::run(tier, ctx),
     "X01" => e2smoke::run(tier, ctx),
+    #[cfg(feature = "security")]
+    "X02" => secsmoke::run(tier, ctx),
     _ => panic!("unknown property {id}"),
   }
 }
